@@ -117,8 +117,9 @@ CLAIMED.update({
                  '(pre-order numbering) and edge symbols the graph holds, the writer model produces exactly the nested text '
                  '(branches in parentheses, symbol in front of the parenthesis, last child continuing the chain) and the reader '
                  'model reads it back to the graph that text denotes (C07_tree_roundtrip = mutual induction writeGraph_tree / '
-                 'loop_T / loop_K + C04_read_tree; the tables enter as the hypothesis EmbT, instantiated by a kernel-checked '
-                 'example); closed form without hypothesis for every path graph (any length, all names, all orders 0-4): the writer model '
+                 'loop_T / loop_K + C04_read_tree); the graph built from any tree provably holds those tables (graphOfTree_emb, '
+                 'by a mutual induction over key ranges), so the statement is closed: C07_tree_text, C07_tree_roundtrip_closed; '
+                 'also for every path graph (any length, all names, all orders 0-4): the writer model '
                  'produces exactly the chain string and the reader model reads it back to the same graph (C07_path_roundtrip = '
                  'writeGraph_path + C04_read_chain); writer and reader symbol tables are mutually inverse on orders 0-4, single '
                  'bonds are silent, ring-marker allocation never returns an open marker; round trips of branch / ring graphs by '
